@@ -63,10 +63,17 @@ namespace vlog {
         return idx;
     }
 
-    __attribute__((noinline)) inline std::uint64_t emit_raw(std::string body)
+    // with_t: append "t":<microseconds>, sampled *after* the sequence number was taken, so
+    // t >= the real time at which the record was ordered
+    __attribute__((noinline)) inline std::uint64_t emit_raw(std::string body, bool with_t = false)
     {
         // seq is taken first: the record is ordered at this instant
         std::uint64_t seq = g_seq.fetch_add(1, std::memory_order_seq_cst);
+        if (with_t)
+        {
+            body += ",\"t\":";
+            body += std::to_string(now_us());
+        }
         shard& sh = g_shards[shard_index()];
         while (sh.lk.test_and_set(std::memory_order_acquire)) {}
         sh.v.push_back(rec{seq, std::move(body)});
@@ -137,6 +144,7 @@ namespace vlog {
             return *this;
         }
         std::uint64_t done() { return emit_raw(std::move(b)); }
+        std::uint64_t done_t() { return emit_raw(std::move(b), true); }
     };
 
     inline void flush_to(FILE* f, bool take_locks)
